@@ -20,6 +20,7 @@
 #include "socket/socket_efuns.h"
 
 #include <sys/stat.h>
+#include <math.h>
 
 #define too_deep_save_error() \
     error("Mappings and/or arrays nested too deep (%d) for save_object\n", MAX_SAVE_SVALUE_DEPTH);
@@ -54,7 +55,16 @@ int *save_svalue_sizes = 0;
  * would otherwise bring the value back as an integer.  Returns the length written.
  */
 static size_t save_real_text (char *buf, double d) {
-  size_t n = (size_t) sprintf (buf, "%g", d);
+  size_t n;
+
+  /* "%g" prints these as "inf" / "nan", which no restore can read.  Write them in the number syntax
+     every restore understands: 1e+999 overflows to infinity, 0e+999 is 0 * infinity = NaN. */
+  if (isnan (d))
+    return (size_t) sprintf (buf, "0e+999");
+  if (isinf (d))
+    return (size_t) sprintf (buf, d < 0 ? "-1e+999" : "1e+999");
+
+  n = (size_t) sprintf (buf, "%g", d);
 
   if (strspn (buf, "-0123456789") == n)
     {
